@@ -47,4 +47,20 @@ theorem typesOk_wf {ts : List CTypeN} (h : typesOk ts = true) : ∀ t ∈ ts, WF
   rw [wf_decode, h.1 t ht, Bool.and_true]
   exact h.2 t.leaf (mem_dedup _ _ _ (Or.inl (List.mem_map.mpr ⟨t, ht, rfl⟩)))
 
+/-- whatever index a header-side table entry carries, the looked-up AST is what the model parser
+    returns on the spelling stored next to it -/
+theorem lookup_parses {tbl : TypeTable} (hp : tableParses tbl = true) (i : Nat) (t : CTypeN)
+    (h : lookup tbl i = some t) : ∃ s : Nat, tbl[i]? = some (s, t) ∧ parseType (dS s) = some t.decode := by
+  unfold lookup at h
+  cases hi : tbl[i]? with
+  | none => simp [hi] at h
+  | some p =>
+    obtain ⟨s, t'⟩ := p
+    simp only [hi, Option.map_some, Option.some.injEq] at h
+    subst h
+    refine ⟨s, rfl, ?_⟩
+    have hm : (s, t') ∈ tbl := List.mem_of_getElem? hi
+    have := List.all_eq_true.mp hp (s, t') hm
+    simpa using this
+
 end MjProof.Introspect
